@@ -1367,7 +1367,8 @@ def stretch_note_sequence(note_sequence, stretch_factor, in_place=False):
   events = itertools.chain(
       stretched_sequence.time_signatures, stretched_sequence.key_signatures,
       stretched_sequence.tempos, stretched_sequence.pitch_bends,
-      stretched_sequence.control_changes, stretched_sequence.text_annotations)
+      stretched_sequence.control_changes, stretched_sequence.text_annotations,
+      stretched_sequence.section_annotations)
   for event in events:
     event.time *= stretch_factor
 
@@ -1464,7 +1465,8 @@ def adjust_notesequence_times(ns, time_func, minimum_duration=None):
       adjusted_ns.pitch_bends,
       adjusted_ns.time_signatures,
       adjusted_ns.key_signatures,
-      adjusted_ns.text_annotations
+      adjusted_ns.text_annotations,
+      adjusted_ns.section_annotations
   )
 
   for event in events:
